@@ -38,10 +38,14 @@ func init() {
 			"pair = two authorities operated in one process at once (free-running goroutines, or handed over at every key-manager / signer / authority call and meeting where both ask for a certificate template); " +
 			"flags = the command line with flags left unset, spelled as their documented default (--rotated_key_serial_override=0), --f v / --f=v, --b / --b=true / --b=false, every overwrite x keep-going pair; " +
 			"bounds = common names of length 0 / 1 / 64 / 200, with DN or path meta characters, equal to the root's; timestamps on the first and last instants of the root's validity; re-bootstraps replacing stored objects by much shorter / longer ones; " +
-			"serials = 14 serial numbers next to DER, 32/64-bit and 20-octet boundaries, each followed by a default rotation; chain = more than ten rotations in one epoch",
+			"serials = 14 serial numbers next to DER, 32/64-bit and 20-octet boundaries, each followed by a default rotation; chain = more than ten rotations in one epoch; " +
+			"subsec = command timestamps with a fraction of a second (1 ns ... 999999999 ns, around one half), library and command line: 'from its creation time' = notBefore is the second the creation time lies in; " +
+			"faults = after a fault-free prefix ONE command (rotate / wipeout / bootstrap, any flags) is run once per component-call position with a single error injected at that position (state restored in between): " +
+			"a command that fails under its fault claims nothing and is not judged, a command that REPORTS SUCCESS although a call failed is judged by all rules above",
 		Assumptions: []string{"freshness of names and 'only the primary signs' are scoped to the current epoch: after bootstrap --overwrite the previous epoch's last key legitimately survives",
-			"timestamps are whole seconds inside the root's validity; RSA keys are 2048-bit nonprod keys"},
-		ShardsQuick: 8, ShardsThor: 16, TimeoutS: 900, TimeoutThor: 3600, Run: run,
+			"timestamps are inside the root's validity, whole seconds except in the subsec family; RSA keys are 2048-bit nonprod keys",
+			"faults family: single error faults at the granularity of the key-manager / signer / authority / storage interfaces; C12's own quantifier is fault-free, so only commands that reported success are judged"},
+		ShardsQuick: 8, ShardsThor: 16, TimeoutS: 1800, TimeoutThor: 5400, Run: run,
 	})
 }
 
@@ -161,7 +165,9 @@ func (h *hist) checkRoot(root *x509.Certificate, now time.Time, what string) {
 	if got := root.NotAfter.Sub(root.NotBefore); got != time.Duration(styp.RootValidDays)*day || styp.RootValidDays != 9131 {
 		h.viol("root-lifetime-not-25-years", "%s: root valid for %v days, documented %d", what, got.Hours()/24, 9131)
 	}
-	if !root.NotBefore.Equal(now) {
+	// certificate times have one-second resolution: "from the command time" = from the second the command time lies in
+	// (a certificate must not begin after its own creation); the generated whole-second timestamps are unchanged by this
+	if !root.NotBefore.Equal(now.Truncate(time.Second)) {
 		h.viol("root-not-valid-from-command-time", "%s: notBefore %v, command time %v", what, root.NotBefore, now)
 	}
 }
@@ -185,8 +191,8 @@ func (h *hist) checkSigning(cert, root *x509.Certificate, now time.Time, wantSer
 			h.viol("signing-certificate-not-issued-by-root", "%s: %v", what, err)
 		}
 	}
-	if got := cert.NotAfter.Sub(cert.NotBefore); got != 1826*day || !cert.NotBefore.Equal(now) {
-		h.viol("signing-certificate-lifetime", "%s: valid [%v, %v] (%v days), want 1826 days from the command time %v", what, cert.NotBefore, cert.NotAfter, got.Hours()/24, now)
+	if got := cert.NotAfter.Sub(cert.NotBefore); got != 1826*day || !cert.NotBefore.Equal(now.Truncate(time.Second)) {
+		h.viol("signing-certificate-lifetime", "%s: valid [%v, %v] (%v days), want 1826 days from the command time %v", what, cert.NotBefore.Format(time.RFC3339Nano), cert.NotAfter.Format(time.RFC3339Nano), got.Hours()/24, now.Format(time.RFC3339Nano))
 	}
 	subj, ok := new(big.Int).SetString(cert.Subject.SerialNumber, 10)
 	if !ok || cert.SerialNumber.Cmp(subj) != 0 {
@@ -420,6 +426,9 @@ func (h *hist) step(step int) {
 	}
 	err := h.exec(cm)
 	c.Eval(1)
+	if h.x != nil && h.x.faults && h.x.faultNotJudged(h, cm, err) {
+		return // the command failed under its injected fault: it claimed nothing, nothing is judged
+	}
 	what := fmt.Sprintf("after %s at step %d", kind, step)
 	switch {
 	case err != nil:
